@@ -9,12 +9,15 @@ Fund(n) == [d \in Denoms |-> n]
 
 AllAddrs == {"o1", "o2", "r1", "r2", "g1", "mod"}
 AllAddrSeq == <<"o1", "o2", "r1", "r2", "g1", "mod">>
+\* trace validation runs longer histories and needs more fresh recipients
+TraceAddrs == AllAddrs \cup {"r3", "r4", "r5", "r6", "r7", "r8"}
+TraceAddrSeq == AllAddrSeq \o <<"r3", "r4", "r5", "r6", "r7", "r8">>
 GenAcct == CV(C1(20), 0, 4)
 BaseSetup == [
-  bal |-> [a \in AllAddrs |-> CASE a = "o1" -> Fund(40) [] a = "o2" -> Fund(20) [] a = "g1" -> AddC(C1(20), [d \in Denoms |-> IF d = "uc4e" THEN 0 ELSE 0]) [] OTHER -> ZeroC],
-  acct |-> [a \in AllAddrs |-> CASE a \in {"o1", "o2"} -> BaseAcct [] a = "g1" -> GenAcct [] a = "mod" -> ModAcct [] OTHER -> NoAcct],
-  pools |-> [a \in AllAddrs |-> <<>>],
-  traces |-> [a \in AllAddrs |-> IF a = "g1" THEN Trace(TRUE, FALSE, FALSE) ELSE NoTrace] ]
+  bal |-> [a \in Addrs |-> CASE a = "o1" -> Fund(40) [] a = "o2" -> Fund(20) [] a = "g1" -> AddC(C1(20), [d \in Denoms |-> IF d = "uc4e" THEN 0 ELSE 0]) [] OTHER -> ZeroC],
+  acct |-> [a \in Addrs |-> CASE a \in {"o1", "o2"} -> BaseAcct [] a = "g1" -> GenAcct [] a = "mod" -> ModAcct [] OTHER -> NoAcct],
+  pools |-> [a \in Addrs |-> <<>>],
+  traces |-> [a \in Addrs |-> IF a = "g1" THEN Trace(TRUE, FALSE, FALSE) ELSE NoTrace] ]
 GenPool == [name |-> "gp", vt |-> "v1", lockStart |-> 0, lockEnd |-> 2, init |-> 20, sent |-> 0, withdrawn |-> 0, genesis |-> TRUE]
 Setup1 == BaseSetup @@ [id |-> 1]
 Setup2 == [BaseSetup EXCEPT !.pools = [@ EXCEPT !["o1"] = <<GenPool>>]] @@ [id |-> 2]
